@@ -124,6 +124,12 @@ def _create_outside_package_class(
     created_module_paths: set[str],
 ) -> set[str]:
     path_parts = class_path.split(".")
+    if len(path_parts) < 2:
+        # Without the module a class belongs to, we don't know where to create the stub file
+        msg = f"Could not create a stub file for '{class_path}': unknown module."
+        logging.warning(msg)
+        return created_module_paths
+
     class_name = path_parts.pop(-1)
     module_name = path_parts[-1]
     module_path = "/".join(path_parts)
